@@ -225,6 +225,20 @@ CHECKS = {
         "build is described in DESIGN.md).",
    technique="TLA+ file/field and session enumeration; cases applied to real files and replayed into the "
              "sanitizer-built naken_util; TLC trace acceptor"),
+ "C19": dict(
+   category="model_checking",
+   text="Util.tla models naken_util's memory commands: a byte memory, CPU address units (1/2/4 bytes per address), byte "
+        "order, the three number spellings (0x.., ..h, decimal), range syntax a-b and the row layout of the dump. GenUtil "
+        "(TLC) enumerates sessions of write/write16/write32 and print/print16/print32 commands; each is rendered with "
+        "varying spellings and fed to the real naken_util (after it loads a small hex file with the real loader) for "
+        "msp430, 68000, avr8, propeller; the dumps are split into rows by a lexer and TraceUtil (TLC) replays the session "
+        "on the model and compares every dump row (address label and bytes) with the model memory; canaries (one dump "
+        "byte flipped) must be rejected.",
+   design_ref="DESIGN.md 4 C19",
+   note="Covers the write*/print* commands and the loader's placement only; the simulator's view of the same bytes is "
+        "covered by C14/C15, and interactive assembly, disasm ranges, symbols, -address/-set_pc are not modelled here.",
+   technique="TLA+ model of naken_util memory commands; TLC-enumerated sessions replayed into the real naken_util; "
+             "TLC trace acceptor over the printed dumps"),
 }
 
 NOT_YET = "machinery for this property is not built yet in this revision (planned in DESIGN.md section 8)"
